@@ -5,6 +5,7 @@ import (
 	"strconv"
 
 	"github.com/grindlemire/go-lucene/internal/lex"
+	"github.com/grindlemire/go-lucene/internal/verifhook"
 	"github.com/grindlemire/go-lucene/pkg/lucene/expr"
 )
 
@@ -12,9 +13,12 @@ import (
 // those slices modified to contain the reduced expressions. The elems will contain the reduced
 // expression the the nonTerminals will contain the modified stack of nonTerminals yet to be reduced.
 func Reduce(elems []any, nonTerminals []lex.Token, defaultField string) ([]any, []lex.Token, bool) {
+	idx := -1
 	for _, reducer := range reducers {
+		idx++
 		elems, nonTerminals, reduced := reducer(elems, nonTerminals, defaultField)
 		if reduced {
+			verifhook.Reducer(idx)
 			return elems, nonTerminals, true
 		}
 	}
